@@ -27,14 +27,14 @@ RULE = (
     "get_alignment_order, get_guide_tree} is executed against each (wrapper, tool behaviour) pair assigned round-robin in "
     "quick and as the full product in thorough; wrappers = minimal LocalApp subclass + ClustalOmega/Muscle3/Muscle5/Mafft "
     "wrappers on fake executables; behaviours = ok, reorder, exit3, hang, garbage, missing record, no tree file, binary "
-    "deleted after construction, non-existent exec dir.  Non-trivial: the sequence contains start and at least one more "
+    "deleted after construction, non-existent exec dir, killed by SIGSEGV / SIGKILL after writing valid output.  Non-trivial: the sequence contains start and at least one more "
     "call; distinct = distinct (wrapper, behaviour, input set, call sequence)."
 )
 SEQ_LEN = {"quick": 3, "thorough": 4}
 ALPHABET = ["start", "join", "join_timeout", "cancel", "get_app_state", "setter", "get_command", "get_exit_code",
             "get_stdout", "get_alignment", "get_alignment_order", "get_guide_tree"]
 WRAPPERS = ["echo", "clustalo", "muscle3", "muscle5", "mafft"]
-BEHAVIOURS = ["ok", "reorder", "exit3", "hang", "garbage", "missing", "notree", "missing_binary", "bad_exec_dir"]
+BEHAVIOURS = ["ok", "reorder", "exit3", "hang", "garbage", "missing", "notree", "missing_binary", "bad_exec_dir", "killed11", "killed9"]
 
 
 def _nseq(L):
@@ -77,7 +77,7 @@ MIN_CASES_PER_WORKER = 40
 WATCHDOG = {"quick": 1500, "thorough": 6 * 3600}
 MANIFEST = {
     "technique": "fault enumeration: all API call sequences up to a bound x tool behaviours x wrappers, lock-step life-cycle automaton, offline checker over the sys.addaudithook event log (mkstemp/remove/chdir/Popen), child liveness via psutil, clean_up call counter",
-    "level_text": "Runtime monitoring with exhaustive enumeration of the bounded space: every call sequence up to length 3 (quick) / 4 (thorough) over the wrapper API is executed against real wrapper objects driving fake executables with 9 behaviours; an automaton predicts success/AppStateError per call, rejected calls must leave state unchanged, and when a run has ended an offline checker over the audit-hook log demands that every temp file created was removed, the cwd is restored, no child is alive and clean_up ran exactly once.",
+    "level_text": "Runtime monitoring with exhaustive enumeration of the bounded space: every call sequence up to length 3 (quick) / 4 (thorough) over the wrapper API is executed against real wrapper objects driving fake executables with 11 behaviours; an automaton predicts success/AppStateError per call, rejected calls must leave state unchanged, and when a run has ended an offline checker over the audit-hook log demands that every temp file created was removed, the cwd is restored, no child is alive and clean_up ran exactly once.",
     "level_note": "Trusts the automaton (read from the requires_state decorators and the class docstring), the fake tools and the audit events of CPython 3.12.  Real external programs are not installed.  Bound: sequence length <= 4, input sets of 2-6 short sequences.",
     "design_ref": "DESIGN.md section 6, C20",
 }
@@ -188,12 +188,12 @@ ALLOWED = {
     "get_alignment_order": {"JOINED"},
     "get_guide_tree": {"JOINED"},
 }
-JOIN_FAILS = {"exit3", "garbage", "missing"}
+JOIN_FAILS = {"exit3", "garbage", "missing", "killed11", "killed9"}
 
 
 def join_fails(wrapper, beh):
     if wrapper == "echo":
-        return beh == "exit3"
+        return beh in ("exit3", "killed11", "killed9")
     if beh in JOIN_FAILS:
         return True
     if beh == "notree" and wrapper in ("clustalo", "mafft"):
@@ -224,7 +224,7 @@ class Case:
 
     # -------------------------------------------------------------- helpers
     def tool_mode(self):
-        return self.beh if self.beh in ("ok", "reorder", "exit3", "hang", "garbage", "missing", "notree") else "ok"
+        return self.beh if self.beh in ("ok", "reorder", "exit3", "hang", "garbage", "missing", "notree", "killed11", "killed9") else "ok"
 
     def wait_child(self):
         if self.pid is None or self.tool_mode() == "hang":
